@@ -220,6 +220,9 @@ def main(argv=None):
         print(f'OUTSIDE FRAGMENT (not a violation): {f}: {why}')
     for m in missing:
         print(f'UNDECIDED (not a violation): baseline obligation no longer generated: {m}')
+    for b in bounded:
+        if b.get('error'):
+            print(f"STAND-IN ERROR (not a violation; the bounded stand-in {b.get('name')} did not complete): {str(b['error']).strip().splitlines()[-1][:200]}")
 
     proved_all = not refuted and not open_ and not unsupported and not missing
     # the evidence level is the level claimed in MANIFEST/claims.json; what this run actually discharged is in `coverage`
